@@ -83,6 +83,20 @@ def reg_lines(rng):
             s.k["leaf_nb"], s.k["leaf_na"] = now - D, now + D
             pd, reg = regsim.build(s)
             out.append((f"reg real-clock untrusted-chain roots={mode}/{fmt}", impl.verify_reg(regrun.policy_of(pd), reg.as_dict())[:60]))
+    # ... and chains that ARE anchored, verified with nothing substituted at all (real clock, the library's own store)
+    import webauthn
+    from harness import fw as _fw
+    for fmt in ("packed", "tpm", "fido-u2f"):
+        for what, lnb, lna in (("valid today", now - D, now + D), ("expired last year", now - 400 * D, now - 300 * D)):
+            s = regsim.RScn(fmt, "ES256-P256")
+            s.pki_tag = "RT"
+            s.n_inter = 0 if fmt == "fido-u2f" else 1
+            s.now = now
+            s.k["pki_kw"] = dict(root_nb=now - 1000 * D, root_na=now + 1000 * D, inter_nb=now - 500 * D, inter_na=now + 100 * D)
+            s.k["leaf_nb"], s.k["leaf_na"] = lnb, lna
+            pd, reg = regsim.build(s)
+            P = impl.RegPolicy(**pd)
+            out.append((f"reg real-clock nothing-substituted anchored chain, leaf {what}/{fmt}", impl.outcome(lambda: webauthn.verify_registration_response(credential=reg.as_dict(), **P.kwargs()), impl.pr_verified_reg)[:60]))
     for fmt in ("packed", "android-safetynet", "apple"):
         for name, f in regcat.CHAIN_FAULTS.items():
             s = regsim.RScn(fmt, "ES256-P256")
@@ -135,6 +149,12 @@ def options_lines(rng):
         b = optsim.gen_auth_args(rng)
         b["challenge"] = b"d" * 16
         out.append((f"genauth {i}", impl.outcome(lambda: webauthn.generate_authentication_options(**optsim.auth_kwargs(b)), optsim.pr_request)[:200]))
+    # defaulted values: their length and (over 60 calls) distinctness - the values themselves are random
+    ch = [webauthn.generate_authentication_options(rp_id="a").challenge for _ in range(60)]
+    out.append(("genauth defaulted challenge: lengths / distinct of 60", f"{sorted(set(map(len, ch)))} {len(set(ch))}"))
+    rs = [webauthn.generate_registration_options(rp_id="a", rp_name="b", user_name="c") for _ in range(60)]
+    out.append(("genreg defaulted challenge: lengths / distinct of 60", f"{sorted(set(len(o.challenge) for o in rs))} {len(set(o.challenge for o in rs))}"))
+    out.append(("genreg defaulted user id: lengths / distinct of 60", f"{sorted(set(len(o.user.id) for o in rs))} {len(set(o.user.id for o in rs))}"))
     for bad in (dict(rp_id="", rp_name="b", user_name="c"), dict(rp_id="a", rp_name="", user_name="c"), dict(rp_id="a", rp_name="b", user_name="")):
         out.append((f"genreg refused {bad}", impl.outcome(lambda: webauthn.generate_registration_options(**bad), optsim.pr_creation)[:60]))
     return out
@@ -145,6 +165,11 @@ GROUPS = {"auth": auth_lines, "reg": reg_lines, "codec": codec_lines, "options":
 
 def main():
     group = sys.argv[1]
+    if os.environ.get("VERIF_LOGGING"):
+        import logging
+        logging.basicConfig(level=logging.DEBUG if os.environ["VERIF_LOGGING"] == "root" else logging.WARNING, stream=open(os.devnull, "w"))
+        if os.environ["VERIF_LOGGING"] != "root":
+            logging.getLogger("webauthn").setLevel(logging.DEBUG)
     if os.environ.get("VERIF_WARNINGS_AS_ERRORS"):
         import warnings
         import cryptography, OpenSSL, cbor2, asn1crypto          # third-party import-time warnings are not the subject
